@@ -479,6 +479,7 @@ def run(ctx):
                 if float(cp) < float(Jstar) - TOL * (1 + abs(float(Jstar))):
                     ctx.fail("lq_finite_better_rule", "a perturbed linear rule has lower cost than the returned value", pinput(p, fn="LQ.update_values", T=T, x0=x0), float(cp), float(Jstar))
 
+    dtype_forms(ctx, qe, thorough, rec_f, meta_rf)
     okrec = ("fun c => let '(p, T, Rf, Fs, P, d) := c in " + PLET +
              "match lq_recursion n k j beta Q R A B C N T Rf %s [] with "
              "| Some (pols, P', d') => list_all2 (%s) pols Fs && %s P' P && %s d' d | None => false end")
@@ -654,6 +655,205 @@ def run(ctx):
     ctx.notes.append("largest observed/tolerance ratios: %s" % json.dumps({k_: round(v, 6) for k_, v in worst.items()}))
     ctx.trusted += ["mpmath (50 digits) / fractions.Fraction oracle arithmetic",
                     "scripted numpy RandomState subclass for standard_normal; Riccati gamma observed through a sys.setprofile return hook"]
+
+
+# ====================================================================== dtype / argument forms
+INT_FORMS = ("int64", "int32", "list", "float32")
+
+
+def as_form(M, form):
+    """integer-valued matrix (list of lists) in the requested argument form"""
+    ints = [[int(x) for x in row] for row in M]
+    if form == "int64":
+        return np.array(ints, dtype=np.int64)
+    if form == "int32":
+        return np.array(ints, dtype=np.int32)
+    if form == "list":
+        return ints
+    if form == "float32":
+        return np.array(ints, dtype=np.float32)
+    if form == "scalar":
+        return ints[0][0]
+    return np.array(ints, dtype=float)
+
+
+def gen_lq_int(rng, n, k, j):
+    """integer-valued LQ data; stage cost [[R, N'],[N, Q]] = W'W + diag(0, eps I)"""
+    for _ in range(300):
+        A = [[Fraction(rng.randint(-1, 1)) for _ in range(n)] for _ in range(n)]
+        if rng.random() < 0.4:      # nilpotent (stable) A
+            A = [[A[a][b] if b > a else Fraction(0) for b in range(n)] for a in range(n)]
+        B = [[Fraction(rng.randint(-2, 2)) for _ in range(k)] for _ in range(n)]
+        W = [[Fraction(rng.randint(-2, 2)) for _ in range(n + k)] for _ in range(rng.randint(1, n + k))]
+        G = mmul(mtr(W), W)
+        R = [row[:n] for row in G[:n]]; N = [row[:n] for row in G[n:]]; Q = [row[n:] for row in G[n:]]
+        for i in range(k):
+            Q[i][i] += rng.choice([1, 2])
+        for i in range(n):
+            R[i][i] += 1               # R > 0: detectable whatever A is
+        C = [[Fraction(rng.randint(-1, 1)) for _ in range(j)] for _ in range(n)]
+        V = [[Fraction(rng.randint(-1, 1)) for _ in range(n)] for _ in range(n)]
+        Rf = mmul(mtr(V), V)
+        if np.linalg.cond(npf(Q)) > 1e3 or spec_radius(fl(A)) > 1.8 or pbh_margin(npf(A), npf(B), rows=False) < 1e-1:
+            continue
+        Rb = npf(R) - npf(N).T @ np.linalg.solve(npf(Q), npf(N))
+        if np.min(np.linalg.eigvalsh((Rb + Rb.T) / 2)) < 0.2:
+            continue
+        return dict(n=n, k=k, j=j, A=A, B=B, Q=Q, R=R, N=N, C=C, Rf=Rf, beta=Fraction(9, 10), cross=True, noise=True)
+    return None
+
+
+def _devs(a, b):
+    a = [np.atleast_1d(np.asarray(x, dtype=float)) for x in a]; b = [np.atleast_1d(np.asarray(x, dtype=float)) for x in b]
+    return max((float(np.max(np.abs(x - y)) / (1 + np.max(np.abs(y)))) if x.shape == y.shape else float("inf")) for x, y in zip(a, b))
+
+
+def dtype_forms(ctx, qe, thorough, rec_f, meta_rf):
+    """every matrix argument of LQ, LQMarkov, RBLQ, nnash passed as int64/int32 arrays, nested lists of Python ints,
+    float32 arrays (integer-valued data): results must equal those of the float64 call (and, for LQ, the model)."""
+    import warnings
+    rng = ctx.rng
+    pick = lambda: rng.choice(INT_FORMS + ("float64",))     # noqa
+    with warnings.catch_warnings():
+        warnings.simplefilter("ignore")
+        for t in range(40 if thorough else 12):
+            n, k, j = rng.randint(1, 3), rng.randint(1, 2), rng.randint(1, 2)
+            p = gen_lq_int(rng, n, k, j)
+            if p is None:
+                continue
+            names = ("Q", "R", "A", "B", "C", "N", "Rf")
+            forms = {nm: pick() for nm in names}
+            if all(f == "float64" for f in forms.values()):
+                forms["R"] = "int64"
+            if n == 1 and k == 1 and j == 1 and rng.random() < 0.3:
+                forms = {nm: "scalar" for nm in names}
+            arg = {nm: as_form(p[nm], forms[nm]) for nm in names}
+            T = rng.randint(1, 6)
+            beta_arg = rng.choice([1, 0.9, 0.9, np.float32(0.5)]); p = dict(p, beta=Fraction(float(beta_arg)).limit_denominator(100))
+            # a float32 argument (beta included: np.sqrt(beta) is then rounded to single precision) makes numpy compute in float32
+            tolf = 1e-5 if ("float32" in forms.values() or isinstance(beta_arg, np.float32)) else 1e-9
+            inp = pinput(p, fn="LQ (argument forms)", T=T, forms=forms, beta_form=type(beta_arg).__name__)
+            ctx.count("forms:LQ"); ctx.case(("forms_lq", str(p), str(forms), T), nontrivial=True)
+            try:
+                # ---- finite horizon: T updates and a simulated path from an integer x0 given as a list
+                ref = make_lq(qe, p, T=T)
+                lqv = qe.LQ(arg["Q"], arg["R"], arg["A"], arg["B"], C=arg["C"], N=arg["N"], beta=beta_arg, T=T, Rf=arg["Rf"])
+                got, exp = [], []
+                for s_ in range(T):
+                    ref.update_values(); lqv.update_values()
+                    exp += [ref.F, ref.P, ref.d]; got += [lqv.F, lqv.P, lqv.d]
+                Fs_v = [np.array(got[3 * s_]) for s_ in range(T)]
+                x0 = [rng.randint(-3, 3) for _ in range(n)]
+                script = [[rng.randint(-2, 2) for _ in range(T + 1)] for _ in range(j)]
+                a1 = make_lq(qe, p, T=T).compute_sequence(np.array(x0, dtype=float), random_state=Scripted(script))
+                a2 = qe.LQ(arg["Q"], arg["R"], arg["A"], arg["B"], C=arg["C"], N=arg["N"], beta=beta_arg, T=T, Rf=arg["Rf"]).compute_sequence(
+                    x0 if n > 1 else x0[0], random_state=Scripted(script))
+                exp += list(a1[:2]); got += list(a2[:2])
+                dev = _devs(got, exp)
+                if dev > tolf:
+                    ctx.fail("lq_dtype_forms", "LQ with argument forms %s differs from the float64 call by %.3g" % (forms, dev), inp, None, None)
+                if "float32" not in forms.values() and not isinstance(beta_arg, np.float32):
+                    rec_f.append(tup(tup(*coq_params_f(p)), natlit(T), flist2(fl(p["Rf"])), fmat3(Fi.tolist() for Fi in Fs_v),
+                                     flist2(np.array(got[3 * T - 2]).tolist()), f1(float(got[3 * T - 1]))))
+                    meta_rf.append(inp)
+                # ---- stationary values (both methods) when beta < 1
+                if float(beta_arg) < 1:
+                    for method in ("doubling", "qz"):
+                        r1 = make_lq(qe, p).stationary_values(method=method)
+                        r2 = qe.LQ(arg["Q"], arg["R"], arg["A"], arg["B"], C=arg["C"], N=arg["N"], beta=beta_arg).stationary_values(method=method)
+                        dev = _devs(r2, r1)
+                        if dev > max(tolf, 1e-8):
+                            ctx.fail("lq_dtype_forms", "LQ.stationary_values(%s) with argument forms %s differs from the float64 call by %.3g" % (method, forms, dev), dict(inp, method=method), None, None)
+            except Exception as e:     # noqa
+                ctx.fail("lq_dtype_forms", "LQ with argument forms %s raises" % forms, inp, repr(e), None)
+
+        # ---- LQMarkov
+        for t in range(16 if thorough else 5):
+            m, n, k, j = rng.choice((1, 2, 3)), rng.randint(1, 3), rng.randint(1, 2), rng.randint(1, 2)
+            regs = [gen_lq_int(rng, n, k, j) for _ in range(m)]
+            if any(r is None for r in regs):
+                continue
+            Pi = _gen_Pi(rng, m)
+            form = pick() if rng.random() < 0.7 else "int64"
+            inp = {"fn": "LQMarkov (argument forms)", "m": m, "Pi": Pi, "regimes": [{nm: r[nm] for nm in ("Q", "R", "A", "B", "C", "N")} for r in regs], "form": form, "beta": "9/10"}
+            ctx.count("forms:LQMarkov"); ctx.case(("forms_lqmarkov", str(inp)), nontrivial=True)
+            mk = lambda f: qe.LQMarkov(_f(Pi), *[[as_form(r[nm], f) for r in regs] for nm in ("Q", "R", "A", "B")],        # noqa
+                                       Cs=[as_form(r["C"], f) for r in regs], Ns=[as_form(r["N"], f) for r in regs], beta=0.9).stationary_values()
+            try:
+                r1 = mk("float64")
+            except Exception:     # noqa
+                ctx.count("forms:LQMarkov_float64_run_raised"); continue
+            try:
+                dev = _devs(mk(form), r1)
+                if dev > (1e-5 if form == "float32" else 1e-9):
+                    ctx.fail("lqmarkov_dtype_forms", "LQMarkov with %s arguments differs from the float64 call by %.3g" % (form, dev), inp, None, None)
+            except Exception as e:     # noqa
+                ctx.fail("lqmarkov_dtype_forms", "LQMarkov with %s arguments raises" % form, inp, repr(e), None)
+
+        # ---- RBLQ: robust_rule, robust_rule_simple without and with P_init
+        for t in range(30 if thorough else 10):
+            n, k, j = rng.randint(1, 3), rng.randint(1, 2), rng.randint(1, 2)
+            p = gen_lq_int(rng, n, k, j)
+            if p is None or all(v == 0 for r in p["C"] for v in r):
+                continue
+            try:
+                P0 = make_lq(qe, dict(p, N=zeros(k, n), C=None)).stationary_values()[0]
+            except Exception:     # noqa
+                continue
+            theta = int(50 * (1 + np.max(np.linalg.eigvalsh(npf(p["C"]).T @ P0 @ npf(p["C"])))))
+            names = ("Q", "R", "A", "B", "C")
+            forms = {nm: pick() for nm in names}
+            if rng.random() < 0.5:
+                forms["R"] = rng.choice(("int64", "int32"))
+            th = rng.choice([theta, float(theta)])
+            fref = qe.RBLQ(*[npf(p[nm]) for nm in names], 0.9, float(theta))
+            try:
+                e0 = fref.robust_rule(); e1 = fref.robust_rule_simple()
+                if _devs(e1, e0) > 1e-6:
+                    ctx.count("forms:RBLQ_skipped(simple iteration not contracting)"); continue
+            except Exception:     # noqa
+                ctx.count("forms:RBLQ_float64_run_raised"); continue
+            inp = {"fn": "RBLQ (argument forms)", "Q": p["Q"], "R": p["R"], "A": p["A"], "B": p["B"], "C": p["C"], "beta": "9/10", "theta": theta,
+                   "forms": forms, "theta_form": type(th).__name__}
+            ctx.count("forms:RBLQ"); ctx.case(("forms_rblq", str(inp)), nontrivial=True)
+            tolf = 1e-5 if "float32" in forms.values() else 1e-9
+            try:
+                rb = qe.RBLQ(*[as_form(p[nm], forms[nm]) for nm in names], 0.9, th)
+                g0 = rb.robust_rule(); g1 = rb.robust_rule_simple()
+                pin = rng.choice(INT_FORMS + ("float64",))
+                g2 = rb.robust_rule_simple(P_init=np.asarray(as_form(zeros(n, n), pin)))
+                for nm, got, exp in (("robust_rule", g0, e0), ("robust_rule_simple()", g1, e1), ("robust_rule_simple(P_init=%s zeros)" % pin, g2, e1)):
+                    dev = _devs(got, exp)
+                    if dev > (max(tolf, 1e-5) if "P_init=float32" in nm else tolf):
+                        ctx.fail("rblq_dtype_forms", "RBLQ.%s with argument forms %s differs from the float64 call by %.3g" % (nm, forms, dev), dict(inp, call=nm), [np.asarray(x).tolist() for x in got], [np.asarray(x).tolist() for x in exp])
+                if _devs(g1, g0) > 1e-6:
+                    ctx.fail("rblq_methods_disagree", "robust_rule and robust_rule_simple disagree for argument forms %s" % forms, dict(inp, fn="RBLQ.robust_rule_simple"), [np.asarray(x).tolist() for x in g1], [np.asarray(x).tolist() for x in g0])
+            except Exception as e:     # noqa
+                ctx.fail("rblq_dtype_forms", "RBLQ with argument forms %s raises" % forms, inp, repr(e), None)
+
+        # ---- nnash
+        for t in range(24 if thorough else 8):
+            n, k1, k2 = rng.randint(1, 3), rng.randint(1, 2), rng.randint(1, 2)
+            p1, p2 = gen_lq_int(rng, n, k1, 1), gen_lq_int(rng, n, k2, 1)
+            if p1 is None or p2 is None:
+                continue
+            Z = lambda r, c: [[Fraction(rng.randint(-1, 1)) for _ in range(c)] for _ in range(r)]     # noqa
+            S1 = mmul(mtr(Z(k2, k2)), Z(k2, k2)); S1 = mmul(mtr(S1), S1); S2 = mmul(mtr(Z(k1, k1)), Z(k1, k1)); S2 = mmul(mtr(S2), S2)
+            mats = (p1["A"], p1["B"], p2["B"], p1["R"], p2["R"], p1["Q"], p2["Q"], S1, S2, mtr(p1["N"]), mtr(p2["N"]), Z(k2, k1), Z(k1, k2))
+            forms = [pick() for _ in mats]
+            try:
+                e = qe.nnash(*[npf(M) for M in mats], beta=0.9)
+            except Exception:     # noqa
+                ctx.count("forms:nnash_float64_run_raised"); continue
+            inp = dict(zip(_NNASH_NAMES, mats)); inp.update({"fn": "nnash (argument forms)", "beta": "9/10", "forms": forms})
+            ctx.count("forms:nnash"); ctx.case(("forms_nnash", str(inp)), nontrivial=True)
+            try:
+                gnn = qe.nnash(*[as_form(M, f) for M, f in zip(mats, forms)], beta=0.9)
+                dev = _devs(gnn, e)
+                if dev > (1e-5 if "float32" in forms else 1e-9):
+                    ctx.fail("nnash_dtype_forms", "nnash with argument forms %s differs from the float64 call by %.3g" % (forms, dev), inp, [np.asarray(x).tolist() for x in gnn], [np.asarray(x).tolist() for x in e])
+            except Exception as ex:     # noqa
+                ctx.fail("nnash_dtype_forms", "nnash with argument forms %s raises" % forms, inp, repr(ex), None)
 
 
 # ====================================================================== operation sequences on ONE LQ object
@@ -1601,9 +1801,23 @@ def derived_correspondence(ctx, thorough, PRE):
                 meta.append(dict(base, max_iter=it))
                 ctx.case(("corr_nnash", it, str(mats), str(beta)), nontrivial=True); ctx.count("corr_nnash:sweeps=%d" % it)
             try:
-                F1, F2, P1, P2 = qe.nnash(*fm, beta=float(beta))
+                (res), rec = _local_hook(lambda: qe.nnash(*fm, beta=float(beta)), "nnash", ("it",))
+                if isinstance(res, Exception):
+                    raise res
+                F1, F2, P1, P2 = res
             except Exception:     # noqa
                 ctx.count("corr_nnash:full_run_raised"); continue
+            # the sweep is not a contraction in general: on some games the iterates first blow up by orders of magnitude and
+            # come back (a chaotic transient that amplifies rounding); the loop is compared only where the path stays bounded
+            blow = False
+            for it in sorted({5, 10, 20, max(1, int(rec.get("it", 0)) // 2)}):
+                if it >= int(rec.get("it", 0)):
+                    continue
+                _o, r_ = _local_hook(lambda: qe.nnash(*fm, beta=float(beta), max_iter=it), "nnash", ("F1", "F2"))
+                if any(nm in r_ and not np.max(np.abs(r_[nm])) <= 20 * (1 + max(np.max(np.abs(F1)), np.max(np.abs(F2)))) for nm in ("F1", "F2")):
+                    blow = True
+            if blow:
+                ctx.count("corr_nnash:transient_blowup(loop comparison skipped)"); continue
             inf1 = flist2([[math.inf] * n for _ in range(k1)]); inf2 = flist2([[math.inf] * n for _ in range(k2)])
             full.append(tup(natlit(n), natlit(k1), natlit(k2), *lits, inf1, inf2,
                             *[flist2(np.atleast_2d(M).tolist()) for M in (F1, F2, P1, P2)]))
